@@ -128,6 +128,19 @@ def gen_dups(rng, i, tier, wrap=False):
             for j in range(rng.choice([60, 150, 300])):
                 plan.append({"op": who, "c": c, "t": round(tb + b * 0.2, 3), "len": rng.choice([0, 3, 8, 12]), "kind": 0,
                              "retry": rng.choice([0, 0, 1, -1]), "cb": False, "api": "send"})
+    if rng.random() < 0.3:
+        # an outage that swallows more than a window's worth (32) of consecutive datagrams of a sender that emits one per
+        # frame, shorter than every liveness timeout: the first datagram after it is far ahead of the receiver's window
+        c = rng.randrange(n)
+        who, period = rng.choice([("send", cfg["clients"][c]["dt"]), ("ssend", max(cfg["server"]["interval"], 1 / 60))])
+        period = max(period, 1 / 60)
+        d = 40 * period + 0.2
+        if d < 3.5:
+            tc = round(t1 + 2.5, 3)
+            cfg["phases"].append({"t0": tc, "t1": round(tc + d, 3), "cut": True, **({"dst": "S", "src": "c%d" % c} if who == "send" else {"src": "S", "dst": "c%d" % c})})
+            for j in range(int((d + 1.0) / period)):
+                plan.append({"op": who, "c": c, "t": round(tc - 0.3 + j * period, 4), "len": 4, "kind": 0, "retry": 0, "cb": False, "api": "send"})
+            cfg["duration"] = max(cfg["duration"], tc + d + 4.0)
     for j in range(rng.choice([4, 10, 25])):
         c = rng.randrange(n)
         plan.append({"op": "replay", "global": True, "t": round(t0 + rng.random() * (cfg["duration"] - t0 - 0.5), 3),
